@@ -73,13 +73,13 @@ type TopicSpec struct {
 // Step is one entry of the admin + API history, executed in order by one
 // driver goroutine while producers and the consumer's poll loop run.
 type Step struct {
-	Kind     string  `json:"kind"` // create-topic grow delete-topic add-topics add-partitions remove-partitions purge-consuming purge-client
-	Topic    string  `json:"topic,omitempty"`
+	Kind     string   `json:"kind"` // create-topic grow delete-topic add-topics add-partitions remove-partitions purge-consuming purge-client
+	Topic    string   `json:"topic,omitempty"`
 	Topics   []string `json:"topics,omitempty"`
-	Parts    []int32 `json:"parts,omitempty"` // add/remove-partitions
-	N        int     `json:"n,omitempty"`     // create-topic: partitions; grow: partitions to add
-	Internal bool    `json:"internal,omitempty"`
-	SleepMs  int     `json:"sleep_ms"`
+	Parts    []int32  `json:"parts,omitempty"` // add/remove-partitions
+	N        int      `json:"n,omitempty"`     // create-topic: partitions; grow: partitions to add
+	Internal bool     `json:"internal,omitempty"`
+	SleepMs  int      `json:"sleep_ms"`
 }
 
 type Plan struct {
@@ -161,10 +161,14 @@ type model struct {
 	cur      map[string]*tsel
 	states   []*state
 	dontcare map[string]int
+	// lastDrop[t] is the clock at which the latest RemoveConsumePartitions / purge
+	// naming t returned: only polls started after it prove that the client is
+	// (again) consuming a partition of t.
+	lastDrop map[string]int64
 }
 
 func newModel(p *Plan) *model {
-	m := &model{regex: p.Mode == "regex", internal: map[string]bool{}, cur: map[string]*tsel{}, dontcare: map[string]int{}}
+	m := &model{regex: p.Mode == "regex", internal: map[string]bool{}, cur: map[string]*tsel{}, dontcare: map[string]int{}, lastDrop: map[string]int64{}}
 	if m.regex {
 		for _, re := range p.Include {
 			m.inc = append(m.inc, lookup(includeTable, re))
@@ -267,11 +271,23 @@ func (m *model) selectedTopic(t string) bool {
 	return m.cur[t] != nil
 }
 
-// apply updates the model for one consumer API call. nExisting is the number
-// of partitions the topic has on the broker at the time of the call, observed
-// the partitions of a topic from which a poll that had already returned before
-// the call delivered records. It returns whether the selection changed.
-func (m *model) apply(st Step, nExisting func(string) int, observed func(string) map[int32]bool) (changed bool) {
+// apply updates the model for one consumer API call that returned at clock
+// ret. nExisting is the number of partitions the topic has on the broker at
+// the time of the call; observed(t, since) the partitions of t from which a
+// poll that started after clock since and had returned before the call
+// delivered records (so the client was consuming them when the call was made).
+// It returns whether the selection changed.
+func (m *model) apply(st Step, ret int64, nExisting func(string) int, observed func(t string, since int64) map[int32]bool) (changed bool) {
+	defer func() {
+		switch st.Kind {
+		case "remove-partitions":
+			m.lastDrop[st.Topic] = ret
+		case "purge-consuming", "purge-client":
+			for _, t := range st.Topics {
+				m.lastDrop[t] = ret
+			}
+		}
+	}()
 	if m.regex {
 		// AddConsumeTopics is documented as a no-op with ConsumeRegex, Add/RemoveConsumePartitions
 		// "work only for direct, non-regex consumers"; a purged topic that still exists "will be
@@ -316,7 +332,7 @@ func (m *model) apply(st Step, nExisting func(string) int, observed func(string)
 		}
 		if s.Whole {
 			s.Whole, s.Ambig = false, true
-			s.Obs = observed(t)
+			s.Obs = observed(t, m.lastDrop[t])
 			m.dontcare["add-partitions-into-whole-topic"]++
 		}
 		if s.Pinned == nil {
@@ -368,7 +384,7 @@ func (m *model) apply(st Step, nExisting func(string) int, observed func(string)
 			m.dontcare["partial-remove-from-whole-topic"]++
 			s.Whole, s.Ambig = false, true
 			s.Removed = rm
-			s.Obs = observed(t)
+			s.Obs = observed(t, m.lastDrop[t])
 			for p := range rm {
 				delete(s.Obs, p)
 			}
@@ -411,12 +427,12 @@ type gtopic struct {
 }
 
 type gen struct {
-	rng   *rand.Rand
-	p     *Plan
-	m     *model
-	world map[string]*gtopic
-	names []string // creation order
-	next  int
+	rng    *rand.Rand
+	p      *Plan
+	m      *model
+	world  map[string]*gtopic
+	names  []string // creation order
+	next   int
 	future []string // named in the configuration, not created yet
 }
 
@@ -622,12 +638,12 @@ func GenPlan(rng *rand.Rand, seed uint64, vt bool) Plan {
 		st.SleepMs = []int{0, 2, 10, 30, 80, p.MetaMaxAgeMs + 20}[rng.IntN(6)]
 		p.Steps = append(p.Steps, st)
 		// keep the generator's model in step (observed sets are irrelevant for target choice)
-		g.m.apply(st, func(t string) int {
+		g.m.apply(st, 0, func(t string) int {
 			if w := g.world[t]; w != nil && !w.deleted {
 				return w.parts
 			}
 			return 0
-		}, func(string) map[int32]bool { return map[int32]bool{} })
+		}, func(string, int64) map[int32]bool { return map[int32]bool{} })
 	}
 	return p
 }
